@@ -1018,6 +1018,71 @@ pub fn call_ladders(class: &str, which: &[&str]) -> (u64, Vec<Viol>) {
     (n, out)
 }
 
+/// compact calls of several levels, valid and refused (an invalid id at the end, in the middle, in front of
+/// valid cells of every level), as all ordered pairs on one fresh thread; the second call of each pair is
+/// compared with the canonical compaction when it is valid. What a refused call saw must not leak.
+pub fn compact_refusal_circuit(class: &str) -> (u64, Vec<Viol>) {
+    let base = rc::all_cells(0);
+    let q = rc::children(base[8])[1];
+    let a3 = under(q, &[2, 1]);
+    let a5 = under(a3, &[0, 3]);
+    let a8 = under(a5, &[1, 1, 2]);
+    let mut valid: Vec<Vec<u64>> = Vec::new();
+    for x in [a3, a5, a8] {
+        let ch = rc::children(x);
+        valid.push(ch.clone());
+        valid.push(ch[..3].to_vec());
+        valid.push(vec![ch[3]]);
+        valid.push(vec![x]);
+        let mut m = rc::children(ch[1]);
+        m.extend([ch[0], ch[2], ch[3]]);
+        valid.push(m);
+    }
+    valid.push(rc::children(q));
+    valid.push(rc::all_cells(1));
+    let mut calls: Vec<(Call, bool)> = valid.iter().map(|v| (Call::Compact(v.clone()), true)).collect();
+    for v in valid.iter().take(12) {
+        for bad in [1u64, u64::MAX, 0x0400000000000000 | 3] {
+            let mut e = v.clone();
+            e.push(bad);
+            calls.push((Call::Compact(e), false));
+            let mut f = vec![bad];
+            f.extend(v.iter().copied());
+            calls.push((Call::Compact(f), false));
+        }
+    }
+    let class = class.to_string();
+    std::thread::scope(|sc| {
+        sc.spawn(move || {
+            let want: Vec<Vec<u64>> = calls.iter().map(|(c, ok)| if *ok { c.expect() } else { vec![] }).collect();
+            let mut n = 0u64;
+            for a in 0..calls.len() {
+                for b in 0..calls.len() {
+                    if !calls[b].1 {
+                        continue;
+                    }
+                    let _ = calls[a].0.run();
+                    let got = calls[b].0.run();
+                    n += 1;
+                    if got.as_ref().ok() != Some(&want[b]) {
+                        return (
+                            n,
+                            vec![viol(
+                                &class,
+                                format!("{:?} right after {:?} on the same thread returned {:?}; the canonical compaction is {:?}", calls[b].0, calls[a].0, got.map(|v| v.iter().map(|&x| subj::hex(x)).collect::<Vec<_>>()), want[b].iter().map(|&x| subj::hex(x)).collect::<Vec<_>>()),
+                                json!({"kind": "call-pair", "first": calls[a].0.to_json(), "second": calls[b].0.to_json(), "class": class}),
+                            )],
+                        );
+                    }
+                }
+            }
+            (n, vec![])
+        })
+        .join()
+        .unwrap()
+    })
+}
+
 /// replay of the cases this module records
 pub fn replay(case: &serde_json::Value) -> Option<Vec<Viol>> {
     let cells = || case["cells"].as_array().map(|a| a.iter().filter_map(|x| x.as_str().and_then(|s| u64::from_str_radix(s, 16).ok())).collect::<Vec<u64>>());
